@@ -56,24 +56,27 @@ type Event struct {
 }
 
 type Case struct {
-	Name    string     `json:"name,omitempty"`
-	NQ      int        `json:"nq"`
-	Progs   [][]Op     `json:"progs"`
-	Grants  []string   `json:"grants,omitempty"` // input: steps to replay first
-	Policy  string     `json:"policy,omitempty"` // how to continue: first | random | stop
-	Seed    uint64     `json:"seed,omitempty"`
-	Bias    int        `json:"bias,omitempty"`
-	Probe   bool       `json:"probe,omitempty"` // allow DrainCommandQueue's send while runAsync is not in its select
-	Hold    string     `json:"hold,omitempty"`  // thread:point kept waiting while anything else can move
-	Cfg     string     `json:"cfg,omitempty"`   // model configuration to compare with: fixed | orig | cap1 | rerun
-	Steps   []Step     `json:"steps,omitempty"`
-	Hung    bool       `json:"hung"`
-	Crashed bool       `json:"crashed,omitempty"` // runEngine recovered a panic of the driver and called atexit.Exit
-	Skipped []string   `json:"skipped,omitempty"` // requested grants that were not possible
-	Log     []Event    `json:"log,omitempty"`
-	Dump    string     `json:"dump,omitempty"`
-	Alts    [][]string `json:"alts,omitempty"` // grantable threads before each step (exploration)
-	Coq     string     `json:"coq,omitempty"`
+	Name      string     `json:"name,omitempty"`
+	NQ        int        `json:"nq"`
+	Progs     [][]Op     `json:"progs"`
+	Grants    []string   `json:"grants,omitempty"` // input: steps to replay first
+	Policy    string     `json:"policy,omitempty"` // how to continue: first | random | stop
+	Seed      uint64     `json:"seed,omitempty"`
+	Bias      int        `json:"bias,omitempty"`
+	Probe     bool       `json:"probe,omitempty"` // allow DrainCommandQueue's send while runAsync is not in its select
+	Hold      string     `json:"hold,omitempty"`  // thread:point kept waiting while anything else can move
+	Cfg       string     `json:"cfg,omitempty"`   // model configuration to compare with: fixed | orig | cap1 | rerun
+	Steps     []Step     `json:"steps,omitempty"`
+	Hung      bool       `json:"hung"`
+	Crashed   bool       `json:"crashed,omitempty"`    // runEngine recovered a panic of the driver and called atexit.Exit
+	Term      bool       `json:"term,omitempty"`       // call Driver.Terminate as soon as every application thread has finished
+	TermEarly string     `json:"term_early,omitempty"` // Terminate returned while an engine goroutine was still at this point
+	TermStuck bool       `json:"term_stuck,omitempty"` // Terminate did not return although nothing was left to run
+	Skipped   []string   `json:"skipped,omitempty"`    // requested grants that were not possible
+	Log       []Event    `json:"log,omitempty"`
+	Dump      string     `json:"dump,omitempty"`
+	Alts      [][]string `json:"alts,omitempty"` // grantable threads before each step (exploration)
+	Coq       string     `json:"coq,omitempty"`
 }
 
 // ---------------------------------------------------------------- scheduler
@@ -323,6 +326,54 @@ func (s *sched) settle() map[int64]string {
 			os.Exit(3)
 		}
 		runtime.Gosched()
+	}
+}
+
+func (s *sched) appsDone() bool {
+	for _, a := range s.apps {
+		if !a.done {
+			return false
+		}
+	}
+	return true
+}
+
+// shutdown: what Runner.Run does after the benchmarks returned. Terminate is
+// called while the engine goroutine is wherever the last drain left it; it
+// must not return before that goroutine has given up the engine.
+func (s *sched) shutdown(c *Case) {
+	done := make(chan struct{})
+	go func() { s.d.Terminate(); close(done) }()
+	returned := func() bool {
+		select {
+		case <-done:
+			return true
+		default:
+			return false
+		}
+	}
+	for i := 0; i < 300; i++ {
+		s.settle()
+		if returned() && c.TermEarly == "" {
+			if e := s.activeEng(); e != nil && e.point != "eng:exit" { // at eng:exit it has given up the engine already
+				c.TermEarly = e.point
+			} else if e := s.waitingEng(); e != nil {
+				c.TermEarly = e.point
+			}
+		}
+		names := s.names()
+		if len(names) == 0 {
+			break
+		}
+		th := s.byName(names[0])
+		th.atYield = false
+		th.grant <- struct{}{}
+	}
+	s.settle()
+	select {
+	case <-done:
+	case <-time.After(500 * time.Millisecond):
+		c.TermStuck = true
 	}
 }
 
@@ -749,6 +800,9 @@ func runCase(c *Case, maxSteps int, explore int) {
 	c.Grants, c.Steps, c.Skipped, c.Log, c.Alts = nil, nil, nil, nil, nil
 	hung := false
 	for len(c.Steps) < maxSteps {
+		if c.Term && s.appsDone() {
+			break // the shutdown phase below is not part of the model
+		}
 		names := s.names()
 		if len(c.Steps) < explore {
 			c.Alts = append(c.Alts, names)
@@ -856,6 +910,11 @@ func runCase(c *Case, maxSteps int, explore int) {
 		c.Dump = string(stackBuf[:runtime.Stack(stackBuf, true)])
 	}
 	c.Coq = coqCase(c)
+	terminated := false
+	if c.Term && !hung && s.appsDone() {
+		terminated = true
+		s.shutdown(c)
+	}
 
 	// let everything run to its end (or stay blocked forever, if it hung)
 	s.free.Store(true)
@@ -873,7 +932,7 @@ func runCase(c *Case, maxSteps int, explore int) {
 			break
 		}
 	}
-	if !hung {
+	if !hung && !terminated {
 		// stop runAsync; if it is stuck (a defect of the code under test) leave it behind
 		done := make(chan struct{})
 		go func() { s.d.Terminate(); close(done) }()
@@ -957,6 +1016,7 @@ func genCase(r *vh.Rng, cfg string) *Case {
 		c.Hold = holds[r.Intn(len(holds))]
 	}
 	c.Probe = r.Bool()
+	c.Term = r.Intn(3) == 0
 	return c
 }
 
@@ -1039,7 +1099,7 @@ func shapedCases(r *vh.Rng, cfg string, reps, maxSteps int) []*Case {
 	var out []*Case
 	for _, sh := range shapes() {
 		for k := 0; k < reps && !enough(); k++ {
-			c := &Case{NQ: sh.NQ, Progs: sh.Progs, Hold: sh.Hold, Probe: true, Policy: "random", Seed: r.U64(), Cfg: cfg}
+			c := &Case{NQ: sh.NQ, Progs: sh.Progs, Hold: sh.Hold, Probe: true, Policy: "random", Seed: r.U64(), Cfg: cfg, Term: k%2 == 1}
 			runCase(c, maxSteps, 0)
 			out = append(out, c)
 		}
